@@ -619,6 +619,20 @@ fn run(name: &str, j: &J) -> Result<bool, String> {
         // C15: both oracles (Hierarchy lookups, then SQL name resolution)
         "c15_any_search" => { if !run("c15_lookup_search", j)? { return Ok(false); } run("c15_sql_search", j) }
         "c15_any_case" => { if j.get("query").is_some() { run("c15_sql_case", j) } else { run("c15_lookup_case", j) } }
+        // C06 / C07: the declared type of COUNT / SUM in a grouped Reduce must contain the per-group values
+        "c07_grouped_count_type" => {
+            use qrlew::{hierarchy::Hierarchy, expr::Identifier, sql::parse, data_type::DataTyped};
+            use std::sync::Arc;
+            let t: Relation = Relation::table().name("t").schema(vec![("g", DataType::integer_interval(0, 3)), ("b", DataType::integer_interval(0, 10))].into_iter().collect::<Schema>()).size(100).build();
+            println!("  table size: {}", t.size());
+            let relations: Hierarchy<Arc<Relation>> = vec![t].iter().map(|t| (Identifier::from(t.name()), Arc::new(t.clone()))).collect();
+            let q = j["query"].as_str().unwrap_or("SELECT g, count(b) AS c FROM t GROUP BY g");
+            let rel = Relation::try_from(parse(q).map_err(|e| e.to_string())?.with(&relations)).map_err(|e| e.to_string())?;
+            let field = rel.schema().field("c").map_err(|e| e.to_string())?.clone();
+            let v = i(j, "value");
+            println!("  {}: c is declared {}; a group of {} rows gives c = {}", q, field.data_type(), v, v);
+            Ok(field.data_type().contains(&Value::integer(v)))
+        }
         _ => Err(format!("unknown replay `{}`", name)),
     }
 }
